@@ -592,6 +592,22 @@ def _s3(program, res):
             h_ = next((h for h in ast.walk(lt.node) if isinstance(h, ast.FunctionDef) and h.name == c.func.id and h is not lt.node), None)
             return h_ is not None and any(isinstance(x, ast.Call) and (dotted_name(x.func) or "") in ("Value", "enc_value") for x in ast.walk(h_))
         return False
+    # `.item()` is also what a one-element array or column answers to: a conversion of "numpy numbers" has to exclude what has a length
+    for cname_ in ("ListTerm", "DictTerm"):
+        ini_ = program.cls("expr_rep", cname_).methods.get("__init__")
+        if ini_ is None:
+            continue
+        for t_ in ast.walk(ini_.node):
+            if isinstance(t_, ast.If) and any(isinstance(c, ast.Call) and isinstance(c.func, ast.Attribute) and c.func.attr == "item" and not c.args for st in t_.body for c in ast.walk(st)):
+                tt = unparse(t_.test)
+                if ".kind" not in tt and "dtype" not in tt:
+                    continue  # another test (isinstance(numpy.generic) ...) is exact by itself
+                if "__len__" in tt or "ndim" in tt or "numpy.generic" in tt or "isscalar" in tt:
+                    res.ok("C12-S3", f"{cname_}: the numpy conversion takes scalars only")
+                else:
+                    res.fail_at("C12-S3", ini_, f"array-item-taken-for-scalar:{cname_}",
+                                f"{cname_} converts whatever has `.item` and a numeric `.dtype` (`{tt[:70]}`): a one-item array or Series inside the literal is silently taken for "
+                                f"its item (x.is_in([pandas.Series([1])]) tests for 1), a longer one fails inside numpy", t_)
     wraps = any(isinstance(st, ast.Assign) and unparse(st.targets[0]) == "self.value" and any(_wrapping_call(c) for c in ast.walk(st.value)) for st in ast.walk(lt.node))
     if wraps:
         res.ok("C12-S3", "ListTerm holds terms: plain items given to it are wrapped as values")
